@@ -359,6 +359,14 @@ class Gen:
                 if up is not None and up.right_vertices.shape == x.left_vertices.shape \
                         and np.array_equal(up.right_vertices, x.left_vertices):
                     up.right_vertices = x.left_vertices
+        r5 = random.Random(self.seed ^ 0xAD1)
+        if r5.random() < 0.25:
+            # a lateral relation taken back after construction through the public setter (the direction flag has no
+            # setter that accepts None and stays behind: it says nothing without a neighbour) - seed C03-15
+            for x in lls:
+                side = r5.choice(["left", "right"])
+                if getattr(x, "adj_" + side) is not None and r5.random() < 0.5:
+                    setattr(x, "adj_" + side, None)
         signs, lights, inters = [], [], []
         # the sign ids of the scenario's country, from the harness's own table (the library's table is code under test:
         # seed C01-14 corrupted one row of it)
